@@ -22,8 +22,8 @@ def jbig (j : Json) (k : String) : Nat := (parseSHex (jstr j k)).2
 def jsbig (j : Json) (k : String) : Int :=
   let (n, a) := parseSHex (jstr j k); if n then -(a : Int) else a
 def shex (i : Int) : String :=
-  if i < 0 then "-" ++ (Nat.toDigits 16 i.natAbs).asString else (Nat.toDigits 16 i.natAbs).asString
-def nhex (n : Nat) : String := (Nat.toDigits 16 n).asString
+  if i < 0 then "-" ++ String.ofList (Nat.toDigits 16 i.natAbs) else String.ofList (Nat.toDigits 16 i.natAbs)
+def nhex (n : Nat) : String := String.ofList (Nat.toDigits 16 n)
 def jobj (kvs : List (String × Json)) : Json := Json.mkObj kvs
 
 end Mps
